@@ -17,7 +17,13 @@ int _tokenizerlex(yyscan_t yyscanner)
     *yy_cp = yyg->yy_hold_char;
     yy_bp = yy_cp;
     /* end of the chunk: yy_scan_string buffers are never refilled */
-    if (yy_cp >= &YY_CURRENT_BUFFER_LVALUE->yy_ch_buf[yyg->yy_n_chars]) return 0;
+    if (yy_cp >= &YY_CURRENT_BUFFER_LVALUE->yy_ch_buf[yyg->yy_n_chars]) {
+      /* <<EOF>> action of the current start condition (extracted: eof_tab), then yyterminate() */
+      int sc = (yyg->yy_start - 1) / 2;
+      if (eof_tab[sc].push) yy_push_state(eof_tab[sc].push, yyscanner);
+      if (eof_tab[sc].pop) yy_pop_state(yyscanner);
+      return 0;
+    }
     char *yy_end = &YY_CURRENT_BUFFER_LVALUE->yy_ch_buf[yyg->yy_n_chars];
     int st = yyg->yy_start + YY_AT_BOL();
     int last_st = 0; char *last_cp = 0;
